@@ -205,7 +205,7 @@ def rule_R05_5(ctx):
             name = res.split("::")[-1]
             a0 = c.argtys[0] if c.argtys else ""
             if name in SHARING_OBSERVERS and ("std::sync::Arc<" in a0 or "Arc::<" in res) \
-                    and "eval::value::" in (c.res_full or "") + a0:
+                    and "eval::value::" in (c.res_full or "") + a0 and f.module.startswith("eval"):
                 r.fail("%s | observes sharing via %s" % (f.path, name),
                        "%s inspects the reference count / uniqueness of a "
                        "value cell (%s): behaviour can depend on the number "
